@@ -281,6 +281,9 @@ RefusalOK(s, e) ==
      \/ /\ e.exc = "SnmpEncodeError"                                    \* C17: it really does not fit
         /\ \A i \in 1..Len(e.oids) : OidFromText(e.oids[i]).c # Reject
         /\ DoesNotFit(s, e)
+     \/ /\ "peergone" \in DOMAIN e /\ e.peergone                          \* the operating system refused the send() (the driver had
+        /\ \/ e.exc \in {"OSError", "ConnectionRefusedError", "TimeoutError", "BlockingIOError"}   \* closed the peer's port: ECONNREFUSED)
+           \/ \E i \in 1..Len(e.bases) : e.bases[i] = "OSError"             \* - reported as an error, never as a request that left
 
 TSend ==
   /\ IsEvent("Send")
